@@ -155,6 +155,10 @@ func reqVals(id int) (method, url, remote, ua, ref, custom, host string) {
 	method, url = fmt.Sprintf("MR%dX", id), fmt.Sprintf("/path/r%dx?q=r%dx", id, id)
 	remote = fmt.Sprintf("10.%d.%d.%d:%d", id>>16&255, id>>8&255, id&255, 1024+id%50000)
 	ua, ref, custom, host = fmt.Sprintf("ua-r%dx", id), fmt.Sprintf("http://ref/r%dx", id), fmt.Sprintf("c-r%dx", id), fmt.Sprintf("host-r%dx.example:80", id)
+	if id%5 == 0 {
+		// the standard methods too (a HEAD or OPTIONS request whose handler writes a body is reported like any other)
+		method = []string{"HEAD", "GET", "POST", "OPTIONS", "CONNECT", "PUT"}[id/5%6]
+	}
 	// some requests lack an attribute (the handlers then add no field) or carry another shape of it
 	switch id % 16 {
 	case 1:
